@@ -73,6 +73,13 @@ example : let t := (T 4 1).feed (shi ++ acute); (runes t 0, t.cx) = ([[0x4E16, 0
 -- in the last column with a pending wrap the mark joins the glyph under the cursor
 example : let t := (T 2 1).feed (B "ab" ++ acute); (runes t 0, t.pendingWrap) = ([[97], [98, 0x301]], true) := by decide
 
+-- auto-margin off, last column: the glyph just printed is under the cursor and takes the mark
+example : let t := (T 2 1 false).feed (B "ab" ++ acute); (runes t 0, t.cx) = ([[97], [98, 0x301]], 1) := by decide
+-- after a cursor movement the mark goes to the cell left of the cursor
+example : let t := (T 4 1).feed (B "ab\x1b[1;4H" ++ acute); runes t 0 = [[97], [98], [32, 0x301], []] := by decide
+-- at column 0 there is nothing to join
+example : let t := (T 4 1).feed acute; (runes t 0, t.malformed) = ([[], [], [], []], []) := by decide
+
 /-! ### SGR -/
 
 example : ((T 4 1).feed (B "\x1b[1;2;3;4;5;7;9m")).pen
